@@ -15,6 +15,8 @@ ENUMS = [
     # class Level(str, Enum) and an IntEnum (trees.ENUM_MIXINS): members that are also str / int instances
     {"k": "enum", "cls": "Level", "members": ["LOW", "MID", "HIGH", "NONE"], "values": ["low", "mid", "high", ""]},   # NONE is falsy
     {"k": "enum", "cls": "Prio", "members": ["P0", "P1", "P2"], "values": [0, 1, 2]},
+    # a class NAME that is also a name of the typing module (matters where annotations are strings, fix 2754edb)
+    {"k": "enum", "cls": "Counter", "members": ["ONE", "TWO", "MANY"]},
 ]
 BASES = ["int", "float", "str", "bool", "path", "enum"]
 INTS = [0, 1, -1, 7, -5, 42, 10**30, -(10**18), 1000000, 3]
